@@ -47,7 +47,7 @@ def plan(tier, seed):
     # they are modules like any other and must be found by patterns
     for s in plan_graph_shards("A", n_max=4, chunk=8):
         out.append(dict(s, naming="identity", implicit=True, bound=s["bound"] + " ancestors implicit"))
-    return {"shards": out, "require_nonzero": ["regex:PASS", "regex:FAIL", "regex:nomatch", "glob:PASS", "glob:FAIL", "glob:nomatch", "batch-subj", "batch-obj"]}
+    return {"shards": out, "require_nonzero": ["regex:PASS", "regex:FAIL", "regex:nomatch", "glob:PASS", "glob:FAIL", "glob:nomatch", "batch-subj", "batch-obj", "batch-tuple"]}
 
 
 def regex_family(ns):
@@ -70,6 +70,10 @@ def regex_family(ns):
             fam.append("^(" + re.escape(a) + "|" + re.escape(b) + ")$")
             fam.append(re.escape(a) + "|" + re.escape(b))
             fam.append(re.escape(b) + "$|" + re.escape(a) + "$")
+    # the same name in another letter case is another name: matches nothing
+    for n in non_root[:2]:
+        if n.upper() != n:
+            fam.append("^" + re.escape(n.upper()) + "$")
     fam.append(".*")
     fam.append("^zzz$")
     seen, out = set(), []
@@ -85,7 +89,7 @@ def glob_family(ns):
     for n in ns[1:]:
         last = n.split(".")[-1]
         fam += [n, "*" + last, "*." + last, n + "*", n.rsplit(".", 1)[0] + ".*", "*" + last + "*", "*." + last + ".*"]
-    fam += ["*", "zzz", "*zzz", "zzz*"]
+    fam += ["*", "zzz", "*zzz", "zzz*"] + [n.upper() for n in ns[1:2] if n.upper() != n]
     seen, out = set(), []
     for f in fam:
         if f not in seen:
@@ -182,7 +186,7 @@ def check_graph(ns, I, seed, res, only=None, implicit=False):
                             viol.append((f"{fam_kind}-differs-from-expansion", (fam_kind, pat, other, side, verb, imp, exc), {"expansion": matches, "outcome": gb}, ga))
         # both sides regex (regex only)
         if fam_kind == "regex":
-            anchored = [p for p in fam if p.startswith("^") and p != "^zzz$"][:4]
+            anchored = [p for p in fam if p.startswith("^") and p != "^zzz$" and any(re.match(p, n) for n in ns)][:4]
             for p1, p2 in itertools.permutations(anchored, 2):
                 m1 = sorted(n for n in ns if re.match(p1, n))
                 m2 = sorted(n for n in ns if re.match(p2, n))
@@ -229,6 +233,26 @@ def check_graph(ns, I, seed, res, only=None, implicit=False):
                         note("glob:batch")
                         if ga != gb:
                             viol.append(("glob-differs-from-expansion", key, {"expansion": union, "outcome": gb}, ga))
+    # (c0) a batch may be given as any sequence: tuple == list
+    for xs in itertools.combinations(non_root, 2):
+        for o in [n for n in non_root if n not in xs][:1]:
+            for kind in KINDS:
+                for verb, imp, exc in SHAPES:
+                    key = ("batch-tuple", xs, o, kind, verb, imp, exc)
+                    if only and only != key:
+                        continue
+
+                    def _mk(seq_s, seq_o):
+                        r = Rule().modules_that()
+                        r = (r.are_named if kind == "named" else r.are_sub_modules_of)(seq_s)
+                        r = getattr(getattr(r, verb)(), IMPORT_METHOD[(imp, exc)])()
+                        return (r.are_named if kind == "named" else r.are_sub_modules_of)(seq_o)
+
+                    as_list = oc(run_rule(_mk(list(xs), [o]), ev))
+                    as_tuple = oc(run_rule(_mk(tuple(xs), (o,)), ev))
+                    note("batch-tuple")
+                    if as_list != as_tuple:
+                        viol.append(("batch-given-as-tuple-differs-from-list", key, as_list, as_tuple))
     # (c) batches incl. related modules
     for k in (2, 3):
         for xs in itertools.combinations(non_root, k):
